@@ -50,7 +50,9 @@ fn tool_pvp_corpus(games: u64, seed: u64) {
         let mut after_eq = false;
         for (i, ch) in label.chars().enumerate() {
             out.push(match ch {
-                'N' | 'B' | 'R' | 'Q' | 'K' if i == 0 => 'P',
+                // 'B' is also a file letter for the input parser: keep it apart
+                'B' if i == 0 => 'B',
+                'N' | 'R' | 'Q' | 'K' if i == 0 => 'P',
                 'N' | 'B' | 'R' | 'Q' if after_eq => 'M',
                 'a'..='h' => 'f',
                 '1'..='8' => 'r',
@@ -91,7 +93,8 @@ fn tool_pvp_corpus(games: u64, seed: u64) {
             }
             // policy: sometimes push/capture with pawns (promotions), sometimes avoid captures of pieces
             let pawn_moves: Vec<&Mv> = legal.iter().filter(|m| pos.sq[m.from as usize].map(|p| p.0) == Some(P::Pawn)).collect();
-            let promos: Vec<&Mv> = legal.iter().filter(|m| m.kind == Kind::Promo && m.promo == Some(P::Queen)).collect();
+            let want_piece = [P::Queen, P::Queen, P::Bishop, P::Knight, P::Rook][(style as usize + line.len()) % 5];
+            let promos: Vec<&Mv> = legal.iter().filter(|m| m.kind == Kind::Promo && m.promo == Some(want_piece)).collect();
             let non_caps: Vec<&Mv> = legal.iter().filter(|m| m.cap.is_none()).collect();
             let r = next();
             let m = if !promos.is_empty() && r % 4 != 0 {
